@@ -24,13 +24,14 @@ CUSTOM = {
     'C07': 'props.t_C07:generate_for_make',
     'C13': 'props.t_C13:setup_generate',
     'C14': 'props.t_C14:setup_generate',
+    'C15': 'props.t_C15:setup_generate',      # Gen_C15.v: BaseSolver.fit loop + global_epoch
     'C16': 'props.t_C16:setup_generate',
     'C17': 'props.t_C17o:setup_generate',
     'C18': 'props.t_C18:setup_generate',
     'C20': 'props.t_C20:setup_generate',
 }
 
-NOGEN = ['C15']        # hand-model only (its proofs reuse the solver model; no generated fragment of its own)
+NOGEN = []        # every property has at least one source-generated fragment
 
 PROPS = sorted(set(GEN) | set(CUSTOM) | set(NOGEN))
 
